@@ -19,7 +19,7 @@ import (
 type c11Cfg struct {
 	Seed      uint64 `json:"seed"`
 	Index     int    `json:"index"`
-	Scenario  int    `json:"scenario"` // 0 Get-triggered reload, 1 two manual refreshes, 2 bulk refresh
+	Scenario  int    `json:"scenario"` // 0 Get-triggered reload, 1 two manual refreshes, 2 bulk refresh, 3-5 a second explicit (bulk) refresh joins the in-flight reload
 	Outcome   int    `json:"outcome"`  // loValue loError loNotFound
 	Readers   int    `json:"readers"`
 	DelayPerM int    `json:"delay_per_mille"`
@@ -174,7 +174,7 @@ func runC11(cfg c11Cfg) (violation, inconclusive string, readsDuring int) {
 	released := make(chan struct{})
 	idle := make(chan struct{})
 	switch cfg.Scenario {
-	case 1:
+	case 1, 3, 4, 5:
 		issued.Add(2)
 	case 2:
 		issued.Add(1)
@@ -185,6 +185,71 @@ func runC11(cfg c11Cfg) (violation, inconclusive string, readsDuring int) {
 		wg.Wait()
 		close(idle)
 	}()
+	doRefresh := func(i int) {
+		defer calls.Done()
+		ch := c.Refresh(ctx, k, g)
+		issued.Done()
+		if ch == nil {
+			fail("Refresh returned a nil channel although refreshing is configured")
+			return
+		}
+		who := fmt.Sprintf("Refresh caller %d", i)
+		select {
+		case r := <-ch:
+			fail(afterMessage(who, r))
+		case <-idle:
+			select {
+			case r := <-ch:
+				fail(afterMessage(who, r))
+			default:
+				fail(who + " received no message although every executor task has finished")
+				return
+			}
+		}
+		<-idle
+		select {
+		case r := <-ch:
+			fail(fmt.Sprintf("%s received a second message %+v", who, r))
+		default:
+		}
+	}
+	doBulk := func(who string) {
+		defer calls.Done()
+		ch := c.BulkRefresh(ctx, []int{k}, g)
+		issued.Done()
+		if ch == nil {
+			fail("BulkRefresh returned a nil channel although refreshing is configured")
+			return
+		}
+		handle := func(rs []otter.RefreshResult[int, int]) {
+			if len(rs) != 1 {
+				fail(fmt.Sprintf("BulkRefresh delivered %d results for one key", len(rs)))
+				return
+			}
+			fail(afterMessage(who, rs[0]))
+		}
+		select {
+		case rs := <-ch:
+			handle(rs)
+		case <-idle:
+			select {
+			case rs := <-ch:
+				handle(rs)
+			default:
+				fail(who + " received no message although every executor task has finished")
+				return
+			}
+		}
+		<-idle
+		select {
+		case rs := <-ch:
+			fail(fmt.Sprintf("%s received a second message %+v", who, rs))
+		default:
+		}
+	}
+	// scenarios 3-5: a second explicit refresh arrives while the reload of the first is in flight, so
+	// every key it asks for is already being loaded by another call
+	var late func()
 	switch cfg.Scenario {
 	case 0:
 		calls.Add(1)
@@ -198,64 +263,23 @@ func runC11(cfg c11Cfg) (violation, inconclusive string, readsDuring int) {
 	case 1:
 		for i := 0; i < 2; i++ {
 			calls.Add(1)
-			go func(i int) {
-				defer calls.Done()
-				ch := c.Refresh(ctx, k, g)
-				issued.Done()
-				if ch == nil {
-					fail("Refresh returned a nil channel although refreshing is configured")
-					return
-				}
-				who := fmt.Sprintf("Refresh caller %d", i)
-				select {
-				case r := <-ch:
-					fail(afterMessage(who, r))
-				case <-idle:
-					select {
-					case r := <-ch:
-						fail(afterMessage(who, r))
-					default:
-						fail(who + " received no message although every executor task has finished")
-						return
-					}
-				}
-				<-idle
-				select {
-				case r := <-ch:
-					fail(fmt.Sprintf("%s received a second message %+v", who, r))
-				default:
-				}
-			}(i)
+			go doRefresh(i)
 		}
+	case 3:
+		calls.Add(2)
+		go doBulk("the first BulkRefresh caller")
+		late = func() { doBulk("the BulkRefresh caller that joined the in-flight reload") }
+	case 4:
+		calls.Add(2)
+		go doRefresh(0)
+		late = func() { doBulk("the BulkRefresh caller that joined the in-flight reload") }
+	case 5:
+		calls.Add(2)
+		go doBulk("the first BulkRefresh caller")
+		late = func() { doRefresh(1) }
 	default:
 		calls.Add(1)
-		go func() {
-			defer calls.Done()
-			ch := c.BulkRefresh(ctx, []int{k}, g)
-			issued.Done()
-			if ch == nil {
-				fail("BulkRefresh returned a nil channel although refreshing is configured")
-				return
-			}
-			handle := func(rs []otter.RefreshResult[int, int]) {
-				if len(rs) != 1 {
-					fail(fmt.Sprintf("BulkRefresh delivered %d results for one key", len(rs)))
-					return
-				}
-				fail(afterMessage("the BulkRefresh caller", rs[0]))
-			}
-			select {
-			case rs := <-ch:
-				handle(rs)
-			case <-idle:
-				select {
-				case rs := <-ch:
-					handle(rs)
-				default:
-					fail("the BulkRefresh caller received no message although every executor task has finished")
-				}
-			}
-		}()
+		go doBulk("the BulkRefresh caller")
 	}
 	select {
 	case <-g.entered:
@@ -263,6 +287,15 @@ func runC11(cfg c11Cfg) (violation, inconclusive string, readsDuring int) {
 		close(g.release)
 		close(released)
 		return "", "the reload was never started", 0
+	}
+	lateStarted := make(chan struct{})
+	if late != nil {
+		go func() {
+			close(lateStarted)
+			late()
+		}()
+	} else {
+		close(lateStarted)
 	}
 	// while the reload is in flight every reader keeps getting the old value
 	var rwg sync.WaitGroup
@@ -296,6 +329,12 @@ func runC11(cfg c11Cfg) (violation, inconclusive string, readsDuring int) {
 		}(i)
 	}
 	rwg.Wait()
+	<-lateStarted
+	if late != nil {
+		// give the late refresh a moment to register on the in-flight calls (workload shaping only:
+		// if it arrives after the release it simply is a refresh of its own)
+		time.Sleep(time.Duration(100+cfg.Seed%400) * time.Microsecond)
+	}
 	close(g.release)
 	close(released)
 	calls.Wait()
@@ -339,7 +378,7 @@ func RunC11(col *core.Collector, tier, variant string, seed uint64, shard, nshar
 	}
 	for i := shard; i < n; i += nshards {
 		r := core.NewRng(core.Derive(seed, core.StrLabel("C11conc"), core.StrLabel(variant), uint64(i)))
-		cfg := c11Cfg{Seed: r.U64(), Index: i, Scenario: r.Intn(3), Outcome: r.Intn(3), Readers: 1 + r.Intn(6), DelayPerM: []int{0, 100, 300, 600}[r.Intn(4)]}
+		cfg := c11Cfg{Seed: r.U64(), Index: i, Scenario: r.Intn(6), Outcome: r.Intn(3), Readers: 1 + r.Intn(6), DelayPerM: []int{0, 100, 300, 600}[r.Intn(4)]}
 		cfg.Sync = false
 		v, inc, reads := runC11(cfg)
 		col.Eval(1)
